@@ -87,9 +87,10 @@ CHECKS["C09"] = {
     "rule": ("random download histories (40-80 steps, a quiescent cut and the conservation equations after every step): 1-6 scripted peers connect, advertise (bitfield/have/have-all/none/dont-have, changing), choke/unchoke, allowed-fast, answer requests with true/corrupt/short/empty/over-long/misplaced/duplicate blocks or rejects, stay silent past the 30 s expiry, disconnect; consumers request/withdraw pieces; evictions; geometries incl. short final block and >=72 pieces. "
              "Distinct = class vector of (answer kinds, choke, disconnect, advert changes, evictions, request/cancel counts); non-trivial = at least one block answered, one dropped (choke/disconnect/reject) and one request seen."),
     "assumptions": E3_ASSUME,
-    "min": {"distinct_nontrivial": {"quick": 50, "thorough": 50}, "counters": {"conservation_cuts": 10000, "allzero_checks": 300, "requests_received": 2000}},
+    "min": {"distinct_nontrivial": {"quick": 50, "thorough": 50}, "counters": {"conservation_cuts": 10000, "allzero_checks": 300, "requests_received": 2000, "backpressure": 300, "large_pieces_completed:above-4GiB": 10}},
     "parts": [{"name": "download", "pkg": "c09_conserve", "netns": "isolated", "race": False, "shards": 16, "env": {"VERIF_PROP": "C09"}},
-              {"name": "download-race", "pkg": "c09_conserve", "netns": "isolated", "race": True, "shards": 16, "env": {"VERIF_PROP": "C09", "VERIF_RACE_SUBSET": "1"}}],
+              {"name": "download-race", "pkg": "c09_conserve", "netns": "isolated", "race": True, "shards": 16, "env": {"VERIF_PROP": "C09", "VERIF_RACE_SUBSET": "1"}},
+              {"name": "large", "pkg": "c09_conserve", "netns": "isolated", "race": False, "shards": 9, "env": {"VERIF_PROP": "C09"}}],
     "technique": "runtime monitor: conservation equations (availability, in-flight) evaluated by reflect at every quiescent cut of a virtual-time swarm against both the peer actors' state and the scripted remotes' own view; storrent's own 'Eek' alarms captured; -race",
     "level_text": "The real torrent loop and peer actors run against scripted remotes in virtual time; after every step the two bookkeeping equations are evaluated at an exact quiescent cut and again after everybody disconnected. Held on the histories observed.",
     "level_note": "web-seed reservations are judged in C14; this check runs without web seeds",
@@ -99,10 +100,11 @@ CHECKS["C11"] = {
     "engine": "E3 swarm",
     "rule": CHECKS["C09"]["rule"].replace("the conservation equations", "the conformance monitor inside each scripted remote judging every message storrent sent"),
     "assumptions": E3_ASSUME + ["messages that reach a remote between its own state-changing message and the next quiescent cut are judged against either the old or the new state (exact exemption window)"],
-    "min": {"distinct_nontrivial": {"quick": 50, "thorough": 50}, "counters": {"requests_received": 2000, "recv:bitfield": 100, "recv:cancel": 100, "recv:pex": 100}},
+    "min": {"distinct_nontrivial": {"quick": 50, "thorough": 50}, "counters": {"requests_received": 2000, "recv:bitfield": 100, "recv:cancel": 100, "recv:pex": 100, "large_pieces_completed:above-4GiB": 10, "large_pieces_completed:spans-4GiB": 5}},
     "parts": [{"name": "download", "pkg": "c09_conserve", "netns": "isolated", "race": False, "shards": 16, "env": {"VERIF_PROP": "C11"}},
               {"name": "download-race", "pkg": "c09_conserve", "netns": "isolated", "race": True, "shards": 16, "env": {"VERIF_PROP": "C11", "VERIF_RACE_SUBSET": "1"}},
-              {"name": "pex", "pkg": "c09_conserve", "netns": "isolated", "race": False, "shards": 16, "env": {"VERIF_PROP": "C11"}}],
+              {"name": "pex", "pkg": "c09_conserve", "netns": "isolated", "race": False, "shards": 16, "env": {"VERIF_PROP": "C11"}},
+              {"name": "large", "pkg": "c09_conserve", "netns": "isolated", "race": False, "shards": 9, "env": {"VERIF_PROP": "C11"}}],
     "technique": "runtime monitor: online protocol-conformance checker inside the scripted remote peer (requests, cancels, bitfields, have/dont-have, fast messages, PEX deltas) with exact exemption windows closed at quiescent cuts",
     "level_text": "Every message storrent emits in the generated histories is judged at the receiving end by an independent monitor that uses only what the remote itself sent and received. Held on the histories observed.",
     "level_note": "queue-depth rule only judged when the remote advertised reqq; bitfield-first rule allows port/extended-handshake before it",
@@ -193,7 +195,7 @@ CHECKS["C18"] = {
              "Distinct = the enumeration cell; non-trivial = at least one contact was observed under an enabling setting in the same scenario (or nothing was ever enabled)."),
     "assumptions": E3_ASSUME + ["the local web-seed server answers 404: only the fact of the request is observed; for proxied torrents the same server is configured as HTTP proxy, so a web-seed fetch shows up there as a proxy request",
                                 "the uninitialised C DHT library returns an error after the hook has reported the announce; what the library would send is not observed"],
-    "min": {"distinct_nontrivial": {"quick": 3000, "thorough": 3000}, "counters": {"tracker_contacts_allowed": 1000, "webseed_contacts_allowed": 1000, "dht_announces_allowed": 2000, "dht_announces_with_port": 300, "peer_handshakes_proxied_checked": 1500, "incoming_refused_proxied": 1500, "incoming_accepted_unproxied": 1500, "tracker_contacts_proxied": 300}},
+    "min": {"distinct_nontrivial": {"quick": 3000, "thorough": 3000}, "counters": {"tracker_contacts_allowed": 1000, "webseed_contacts_allowed": 1000, "dht_announces_allowed": 2000, "dht_announces_with_port": 300, "peer_handshakes_proxied_checked": 1500, "incoming_refused_proxied": 1500, "incoming_refused_proxied_after_swap": 1500, "incoming_accepted_unproxied": 1500, "tracker_contacts_proxied": 300}},
     "exhaustive_note": "the initial-configuration x proxy x SetConf-sequence (length <= 2) table is enumerated completely; waits are PRNG-chosen per cell",
     "parts": [{"name": "privacy", "pkg": "c18_privacy", "netns": "loopback", "race": False, "shards": 16},
               {"name": "privacy-race", "pkg": "c18_privacy", "netns": "loopback", "race": True, "shards": 16, "tiers": ["thorough"]}],
